@@ -40,6 +40,7 @@ def prove(tier, seed):
     names = ["vec", "permute_systems", "swap", "permutation_operator", "swap_operator"]
     lem, lem_records = selfcheck.lemmas_C01(tier)
     records += lem_records
+    records += IP.frame_records(["vec", "permute_systems", "swap", "permutation_operator", "swap_operator"])
     planted = selfcheck.planted("C01", tier, S)
     sc = selfcheck.standard(records, names)
     sc["planted_bugs_all_refuted"] = {"ok": planted["tried"] == planted["refuted"], "detail": planted}
@@ -127,6 +128,13 @@ def cases(tier, seed):
                 break
             perm = list(range(1, n)) + [0]
             add("ps.float_prelude", dict(d=d, n=n, perm=perm), "permute_systems/dim-omitted/d=%d,n=%d" % (d, n))
+    for perm in ([1, 0], [1, 2, 0]):
+        n = len(perm)
+        add("frame.args", dict(fn="permute_systems", perm=perm, rdims=[2, 3, 2][:n], cdims=[3, 2, 2][:n]), "frame/permute_systems")
+    add("frame.args", dict(fn="swap", sys=[1, 2], rdims=[2, 3], cdims=[3, 2]), "frame/swap")
+    add("frame.args", dict(fn="swap", sys=[1, 3], rdims=[2, 3, 2], cdims=[3, 2, 2]), "frame/swap")
+    for dt in ("int8", "uint8", "int16", "int32", "bool"):
+        add("int_dtype", dict(dtype=dt, dims=[2, 3], sys=[1]), "int_dtype/%s" % dt)
     # vec
     for shp in ([2, 3], [3, 1], [1, 4], [2, 3, 2]):
         add("vec.index", dict(shape=shp), "vec")
